@@ -505,7 +505,7 @@ class MetaClass(object):
         self.deleted = weakref.WeakSet()
         self.clazz = type(str(kind), (Class,), dict(__metaclass__=self))
         
-    def __call__(self, *args, **kwargs):
+    def __call__(self, /, *args, **kwargs):
         '''
         Create and return a new instance using the metaclass constructor.
         '''
@@ -588,7 +588,7 @@ class MetaClass(object):
         else:
             raise MetaException("Unknown type named '%s'" % type_name)
         
-    def new(self, *args, **kwargs):
+    def new(self, /, *args, **kwargs):
         '''
         Create and return a new instance.
         '''
@@ -1226,7 +1226,7 @@ class MetaModel(object):
         else:
             raise UnknownClassException(kind)
 
-    def new(self, kind, *args, **kwargs):
+    def new(self, kind, /, *args, **kwargs):
         '''
         Create and return a new instance in the metamodel of some *kind*.
         
